@@ -42,6 +42,8 @@ RULE = ('random API-built designs from gen_designs without nand (15 primitive op
         'position a constant can take.  Own names: user registers / wires / constants / inputs / outputs named like '
         'the identifiers the emitted texts declare themselves (rst, clk, tb_iter, block, mem_<id>, _ver_out_tmp_<k>, '
         'toplevel, tb ...) under every add_reset option: either PyrtlError or text that passes all checks.  '
+        'Translator tie: the statement tables of the emitter model are regenerated from the source on every run '
+        '(Gen/C05Emit.v) and proved equal to the tables emitted_ok is built from.  '
         'Sanitizer: per design the Coq sanitizer model (parameters regenerated from the source) is evaluated on '
         'the wire names and compared with the identifiers read off the emitted text.  '
         'Targeted: every IEEE 1364-2001 keyword as a wire name; sanitizer-prefix, mem_<id> and '
@@ -57,7 +59,15 @@ TRUSTED = ['IO/VerilogSyn.v + IO/VerilogSem.v: hand-written formalisation of the
            'IO/VerilogTestbench.v: reading of the testbench `initial` block',
            'IO/VerilogSanitizer.v legal_ident / ieee_keywords: what a legal identifier of the emitted texts is',
            'py/verilog_reader.py: parser of exactly that subset (fails closed), incl. the IEEE 1364-2001 '
-           'keyword table']
+           'keyword table',
+           'py/genfrag_C05.py: (a) sanitizer parameters read from _VerilogSanitizer; (b) symbolic execution of the '
+           'loop bodies of _to_verilog_combinational/_sequential/_memories per op character -> Gen/C05Emit.v '
+           '(varname(dests[0]) -> D, varname(args[k]) -> A<k>; the printed statement is parsed with the reader\'s '
+           'expression parser; the two list comprehensions of concat/select are matched by AST identity); fails '
+           'closed.  NO LONGER hand-tied: the statement tables of the emitter model (per-op assign expression, '
+           'constant literal, register reset/update statements, memory write/read statements) are proved equal to '
+           'the regenerated ones (C05_model_tables_match_source), and C05_assign_correct is stated over the '
+           'regenerated table']
 ASSUMPTIONS = [
     'unsized decimal literals (constants, reset values) >= 2^31 are given their mathematical value; the '
     'standard only guarantees an implementation-defined width of at least 32 bits for them (observation, '
